@@ -136,6 +136,7 @@ def c17(tier):
         _ob("K-roundtrip", KC, "k_roundtrip", dict(N=2 if tier == "quick" else 3, G=2 if tier == "quick" else 3)),
         _ob("K-config", KC, "k_config", dict(N=2, G=2), **_HO),
         _ob("K-runtime", KC, "k_runtime", dict(N=2 if tier == "quick" else 3, G=2)),
+        _ob("K-walltime", KC, "k_walltime", {}),
     ]
 
 
@@ -165,6 +166,8 @@ def c14(tier):
 def c16(tier):
     q = [_ob("H-hooks/hpc", H, "h_submit", dict(shapes=["chain2", "indep2"], bss=[1, 2], maxns=[None], hooks=True, fails=False,
                                                 cancel_flags=False), **_HO),
+         _ob("H-hooks/G2", H, "h_submit", dict(shapes=["indep2"], bss=[1], maxns=[None], hooks=True, fails=False, G=2,
+                                               cancel_flags=False), **_HO),
          _ob("H-hooks/local", H, "h_submit", dict(shapes=["chain2"], bss=[2], maxns=[None], hooks=True, fails=True, local=True,
                                                   procs=1, hook_rcs=[0, 1]), **_HO),
          _ob("H-hooks/hpc-failing", H, "h_submit", dict(shapes=["chain2"], bss=[1], maxns=[None], hooks=True, fails=True,
@@ -199,6 +202,10 @@ def c19(tier):
         _ob("K-launch/split", KL, "k_launch_split", dict(max_len=3 if tier == "quick" else 5)),
         _ob("K-launch/rc", KL, "k_launch_rc", {}),
         _ob("K-launch/real", KL, "k_launch_real", {}),
+        _ob("H-launch/hpc", H, "h_submit", dict(shapes=["chain2"], bss=[1, 2], maxns=[None], append_flags=True, rcs=[0, 3, 255],
+                                                cancel_flags=False), **_HO),
+        _ob("H-launch/local", H, "h_submit", dict(shapes=["chain2"], bss=[2], maxns=[None], append_flags=True, rcs=[0, 255], local=True,
+                                                  procs=1, cancel_flags=False), **_HO),
         _ob("X-split", "harness.x_split", "x_split", xs, kind="direct", replay=("harness.x_split", "replay_direct")),
     ]
 
@@ -237,7 +244,7 @@ def obligations(prop, tier):
         "C04": lambda t: k_queue(t) + k_collect(t) + h_submit(t),
         "C05": lambda t: k_batch(t) + h_submit(t) + h_races(t),
         "C06": lambda t: k_batch(t) + k_queue(t) + h_submit(t) + h_races(t, user=False),
-        "C07": lambda t: k_batch(t, deep=True) + h_submit(t) + h_dry(t),
+        "C07": lambda t: k_batch(t, deep=True) + h_submit(t) + h_dry(t) + [_ob("K-walltime", KC, "k_walltime", {})],
         "C08": c08,
         "C09": lambda t: k_collect(t) + h_submit(t),
         "C10": lambda t: c10(t) + [o for o in c13(t) if o["name"].startswith("H-resubmit")][:1],
